@@ -461,8 +461,10 @@ func (an *Analysis) createType(typ types.Type, ctx context) Type {
 // it is a no-op if `typ` as already been processed
 func (an *Analysis) handleType(typ types.Type, ctx context) Type {
 	if v, has := an.Types[typ]; has { // we have already seen this type
+		verifTrace("hit", typ, v)
 		return v
 	}
+	verifTrace("enter", typ, nil)
 
 	// resolve the type
 	type_ := an.createType(typ, ctx)
@@ -470,6 +472,7 @@ func (an *Analysis) handleType(typ types.Type, ctx context) Type {
 	if !ctx.isInExtern {
 		an.Types[typ] = type_
 	}
+	verifTrace("return", typ, type_)
 
 	return type_
 }
